@@ -16,6 +16,12 @@ import (
 )
 
 // FuncInfo is a function body available for verification or inlining.
+// GuardClause is "guarded L by K": field L may be accessed only while lock K is held.
+type GuardClause struct {
+	Loc, Lock *SpecExpr
+	Clause    *Clause
+}
+
 type FuncInfo struct {
 	Obj  *types.Func // nil for literals
 	Decl *ast.FuncDecl
@@ -73,6 +79,7 @@ type Contract struct {
 	Invs        map[int][]*Clause
 	Decreases   map[int]*Clause
 	Variant     *Clause // function-level "decreases e": termination measure for (mutually) recursive calls
+	Guarded     []*GuardClause
 	Sites       []*Clause
 	ExitsIf     []*Clause
 	PanicsIf    []*Clause
@@ -202,7 +209,7 @@ func Load(repoDir string, patterns []string, overlay map[string][]byte) (*World,
 }
 
 func isRepoPkg(p *packages.Package) bool {
-	return strings.HasPrefix(p.PkgPath, "github.com/vektra/mockery/v3") || strings.HasPrefix(p.PkgPath, "verifcorpus/") || strings.HasPrefix(p.PkgPath, "github.com/vektra/mockery/tools")
+	return isRepoPath(p.PkgPath)
 }
 
 func displayName(f *types.Func) string {
@@ -227,7 +234,7 @@ func displayName(f *types.Func) string {
 	return pkg + f.Name()
 }
 
-var kwRe = regexp.MustCompile(`^(requires|ensures|returns|assigns|loop|site|pure|trusted|noinline|safety|exits_if|decreases|panics_if|props|is|let|errdrop)\b`)
+var kwRe = regexp.MustCompile(`^(requires|ensures|returns|assigns|loop|site|pure|trusted|noinline|safety|exits_if|decreases|guarded|panics_if|props|is|let|errdrop)\b`)
 
 func (w *World) loadContracts(p *packages.Package) error {
 	dir := ""
@@ -359,6 +366,17 @@ func (w *World) parseBlock(p *packages.Package, path string, b *rawBlock) error 
 				return err
 			}
 			c.Returns = append(c.Returns, cl)
+		case "guarded":
+			i := strings.Index(rest, " by ")
+			if i < 0 {
+				return fmt.Errorf("line %d: guarded clause needs 'guarded L by K'", lineNo)
+			}
+			loc, err1 := ParseSpec(strings.TrimSpace(rest[:i]))
+			lock, err2 := ParseSpec(strings.TrimSpace(rest[i+4:]))
+			if err1 != nil || err2 != nil {
+				return fmt.Errorf("line %d: guarded clause: %v %v", lineNo, err1, err2)
+			}
+			c.Guarded = append(c.Guarded, &GuardClause{Loc: loc, Lock: lock, Clause: cl})
 		case "decreases":
 			if err := parse(rest); err != nil {
 				return err
@@ -835,4 +853,10 @@ func (w *World) BindingObject(c *Contract) string {
 		return "?" + types.ExprString(e)
 	}
 	return describe(c.bindingExpr)
+}
+
+// isRepoPath: packages whose functions are verified text (the repository's modules, and the module of
+// the instance corpus into which mocks are generated on every run).
+func isRepoPath(path string) bool {
+	return strings.HasPrefix(path, "github.com/vektra/mockery/") || strings.HasPrefix(path, "verifcorpus/") || strings.HasPrefix(path, "example.com/corpus")
 }
